@@ -1876,6 +1876,7 @@ class CParser:
     # BNF: postfix_expression   : primary_expression postfix_suffix*
     #                           | '(' type_name ')' '{' initializer_list ','? '}'
     def _parse_postfix_expression(self) -> c_ast.Node:
+        expr = None
         result = self._try_parse_paren_type_name()
         if result is not None:
             typ, mark, _ = result
@@ -1886,11 +1887,14 @@ class CParser:
                 init = self._parse_initializer_list()
                 self._accept("COMMA")
                 self._expect("RBRACE")
-                return c_ast.CompoundLiteral(typ, init)
+                # A compound literal is a postfix expression and can be
+                # followed by postfix suffixes, e.g. (int[]){1, 2}[0]
+                expr = c_ast.CompoundLiteral(typ, init)
             else:
                 self._reset(mark)
 
-        expr = self._parse_primary_expression()
+        if expr is None:
+            expr = self._parse_primary_expression()
         while True:
             if self._accept("LBRACKET"):
                 sub = self._parse_expression()
